@@ -341,11 +341,15 @@ P('C14', claimed=True, level='other', contracts=['seq_event_keys', 'seq_ppar', '
               'Modifier-only events are left unspecified.'))
 
 P('C15', claimed=True, level='other',
-  contracts=['base_builtins', 'base_builtins_wrappers', 'synth_specialindex', 'seq_oppatterns'], drivers=['vf.drivers.C15'],
+  contracts=['base_builtins', 'base_builtins_wrappers', 'synth_specialindex', 'seq_oppatterns', 'base_opstreams'], drivers=['vf.drivers.C15'],
   level_text=('Numeric range/inverse laws of mod, div, wrap, fold, clip, round, roundup, trunc and the '
               'midi/cps, ratio/midi, oct/cps, amp/db pairs are postconditions on the real kernels and are '
               'discharged for all int/float arguments (one case per type assignment; floats as reals); the '
               'opcode tables and the selector each operator method passes are exhaustive finite obligations. '
+              'Lifting over streams and functions: UnopStream/BinopStream/NaropStream.next draw ONE value from every operand stream in '
+              'operand order with the same input and return the selector of exactly those values (an exhausted operand ends it, '
+              'nothing computed), reset resets every operand; UnopFunction/BinopFunction.__call__ call every callable operand once '
+              'with exactly the caller\'s positional and keyword arguments (a value stands for itself) and apply the selector in order. '
               'Lifting over patterns: Punop/Pbinop/Pnarop store their operands as given (no stream is made at '
               'construction), __stream__ makes NEW operand streams in the call and hands them in operand order to '
               'the operator stream, and __embed__ (Punop, Pnarop) draws one value from every operand stream per '
